@@ -47,6 +47,7 @@ type gCmd struct {
 	Silent    bool
 	DeferTplV bool   // deferred call passes V: '{{.V}}' (known-defect trigger, C02 only)
 	ForKind   string // probe loops: as gRef.ForKind
+	FailStmt  bool   // failing probe: the failure is a failing statement in the middle of the script ("false"), not an exit: the script stops there only because commands run with errexit
 	Glued     bool   // probe: START and END lines come from one printf (two writes, no cancellation point between them)
 }
 
@@ -66,6 +67,7 @@ type gTask struct {
 	Internal bool
 	VUse     string // "cmd" (default), "env": where a when_changed task lets V surface
 	PrintXC  bool   // some deferred call passes XC to this task: its probes print it
+	DynCount bool   // a task-level dynamic variable whose command gives a new value on every evaluation (it counts its own evaluations in a file): evaluated once per (command, dir, environment), every call of the task sees the same value
 	DynFail  bool   // a task-level dynamic variable whose command fails: the task cannot be compiled (checked per call, before deps and deduplication)
 	SrcLoop  bool   // (t0) the task has templated sources (method: none) some of its loops iterate over
 	Dir      string
@@ -92,9 +94,11 @@ type gProg struct {
 	Answer                           string // "", "y", "n", "eof"
 	ExitCodeFlag                     bool
 	FileSilent                       bool
-	CancelAtEvent                    int  // 0 = none; cancel the caller ctx at the k-th probe event
-	IncDefaultV                      bool // the included Taskfile declares a top-level var V ('incv'): call vars must still win
-	IncSplit                         int  // 0 = single file; otherwise tasks with Idx >= IncSplit live in inc/Taskfile.yml, included as namespace "n"
+	SetPipefail                      bool   // Taskfile-level set: [pipefail]
+	IncRun                           string // top-level run: of the included Taskfile ("" = none)
+	CancelAtEvent                    int    // 0 = none; cancel the caller ctx at the k-th probe event
+	IncDefaultV                      bool   // the included Taskfile declares a top-level var V ('incv'): call vars must still win
+	IncSplit                         int    // 0 = single file; otherwise tasks with Idx >= IncSplit live in inc/Taskfile.yml, included as namespace "n"
 }
 
 // refName is the name by which task `to` is referenced from task `from` (or from the command line when from < 0).
@@ -137,6 +141,8 @@ type gBias struct {
 	FanIn        bool
 	Matrix       bool
 	FailSibling  bool // a third of the programs get a failing leaf task that is made a sibling dependency of references to deduplicated tasks
+	DynCount     bool // deduplicated tasks may get a dynamic variable that is different on every evaluation
+	IncRun       bool // the included Taskfile may declare its own top-level run: (which must not leak into the root's default)
 	LoopKinds    bool // loops take their list from a variable (plain / split) or from the task's sources
 	DynVars      bool // tasks get a dynamic (sh:) variable (race-sim: exercises the dynamic variable cache)
 }
@@ -207,9 +213,13 @@ func genG(ch *vs.Choices, b gBias) *gProg {
 		p.FileRun = []string{"once", "when_changed", "always"}[ch.Draw(3)]
 	}
 	p.FileSilent = ch.Bool(1, 2)
+	p.SetPipefail = ch.Bool(1, 4)
 	if n >= 3 && ch.Bool(1, 3) {
 		p.IncSplit = 2 + ch.Draw(n-2)
 		p.IncDefaultV = ch.Bool(1, 3)
+		if b.IncRun && ch.Bool(1, 3) {
+			p.IncRun = []string{"once", "when_changed"}[ch.Draw(2)]
+		}
 	}
 	for i := 0; i < n; i++ {
 		t := &gTask{Idx: i, Name: fmt.Sprintf("t%d", i)}
@@ -238,6 +248,9 @@ func genG(ch *vs.Choices, b gBias) *gProg {
 			if c.Kind == gProbe {
 				if ch.Pct(b.PFail) {
 					c.Fail = 1 + ch.Draw(255)
+					if ch.Bool(1, 4) {
+						c.Fail, c.FailStmt = 1, true
+					}
 					if ch.Pct(b.PIgnore) {
 						c.Ign = true
 					}
@@ -293,6 +306,7 @@ func genG(ch *vs.Choices, b gBias) *gProg {
 		}
 		t.DynVar = b.DynVars && ch.Bool(1, 2)
 		t.DynFail = b.DynVars && b.PGuard > 0 && ch.Bool(1, 12)
+		t.DynCount = b.DynCount && ch.Bool(1, 3)
 		if b.VEnvSub && t.Run == "when_changed" && ch.Bool(1, 2) {
 			t.VUse = "env"
 		}
@@ -413,6 +427,11 @@ func genG(ch *vs.Choices, b gBias) *gProg {
 	if b.Cancel && ch.Bool(1, 3) {
 		p.CancelAtEvent = 1 + ch.Draw(12)
 	}
+	for i := range p.Roots {
+		if p.Tasks[p.Roots[i].Target].DynCount {
+			p.Roots[i].Alias = false
+		}
+	}
 	gSanitize(p, b)
 	return p
 }
@@ -430,6 +449,11 @@ func gSanitize(p *gProg, b gBias) {
 					r.VMode = vNone
 				}
 				// loops over a once task are legal (all iterations share one execution)
+			}
+			if p.Tasks[r.Target].DynCount {
+				// a dynamic variable is evaluated once per (command, dir, environment), and the name a task was called
+				// by is part of that environment ($ALIAS): a task with a counting variable is always called by name
+				r.Alias = false
 			}
 			if tr != "always" {
 				r.PassItem = false // (an extra variable would be one more dimension of a when_changed task's identity)
@@ -699,6 +723,9 @@ func probeText(p *gProg, t *gTask, idx int, c gCmd) string {
 	}
 	q := `"`
 	s := fmt.Sprintf("echo %sS|%s|%s|%s|%s%s", q, pe, t.Name, lab, extra, q)
+	if c.Fail > 0 && c.FailStmt {
+		return s + fmt.Sprintf("; false; echo %sE|%s|%s|%s%s", q, pe, t.Name, lab, q)
+	}
 	if c.Fail > 0 {
 		return s + fmt.Sprintf("; exit %d", c.Fail)
 	}
@@ -757,6 +784,9 @@ func (p *gProg) render(lo, hi int, root bool) string {
 		if p.IncDefaultV {
 			sb.WriteString("vars:\n  V: incv\n")
 		}
+		if p.IncRun != "" {
+			fmt.Fprintf(&sb, "run: %s\n", p.IncRun) // (has no effect: the default is the root Taskfile's)
+		}
 		sb.WriteString("tasks:\n")
 	}
 	if root && p.FileRun != "" {
@@ -764,6 +794,9 @@ func (p *gProg) render(lo, hi int, root bool) string {
 	}
 	if root && p.FileSilent {
 		sb.WriteString("silent: true\n")
+	}
+	if root && p.SetPipefail {
+		sb.WriteString("set: [pipefail]\n") // shell options are added to errexit, they do not replace it
 	}
 	if root && p.IncSplit > 0 {
 		if p.IncDefaultV || len(p.Tasks)%2 == 0 {
@@ -844,6 +877,10 @@ func (p *gProg) render(lo, hi int, root bool) string {
 		}
 		if t.DynFail {
 			tvars = append(tvars, "DF:\n        sh: exit 3")
+		}
+		if t.DynCount {
+			f := "{{.ROOT_DIR}}/cnt-" + strings.ReplaceAll(t.Name, ":", "-")
+			tvars = append(tvars, fmt.Sprintf("DC:\n        sh: 'echo x >> %s; n=0; while read l; do n=$((n+1)); done < %s; echo $n'", f, f))
 		}
 		if t.SrcLoop {
 			tvars = append(tvars, "SD: sx")
